@@ -322,7 +322,7 @@ def _dsd_check(c):
     # continuity at r1 and r2
     e = c['eps']
     for name, r in (('r1', r1), ('r2', r2)):
-        D = p['D_CJ_1'] if name == 'r1' else min(p['D_CJ_1'] - p['alpha_1'] / r, p['D_CJ_2'] - p['alpha_2'] / r)
+        D = (p['D_CJ_1'] - p['alpha_1'] / r) if name == 'r1' else min(p['D_CJ_1'] - p['alpha_1'] / r, p['D_CJ_2'] - p['alpha_2'] / r)
         ta, tb = _dsd_t(p, u, [r * (1 - e), r * (1 + e)])
         if abs(tb - ta) > 2 * e * r / D * 1.01 + 1e-12 * (1 + abs(ta)):
             return fail('CylindricalExpansion:jump-at-' + name, below=ta, above=tb, eps=e)
@@ -367,8 +367,8 @@ def apply(m, v):
     return [sum(m[i][j] * v[j] for j in range(len(v))) for i in range(len(m))]
 
 
-def _sym_gen(rng):
-    kind = rng.choice(['k1', 'k1', 'k2', 'k3', 'dsd'])
+def _sym_gen(rng, kind=None):
+    kind = kind or rng.choice(['k1', 'k1', 'k2', 'k3', 'dsd'])
     if kind == 'k1':
         p = k1_params(rng)
         g = p['geometry']
@@ -423,15 +423,15 @@ def _sym_check(c):
     return None
 
 
-symmetry = O.make(_sym_gen, _sym_check, 'burn.symmetry')
+symmetry = {k: O.make(lambda rng, k=k: _sym_gen(rng, k), _sym_check, 'burn.symmetry.' + k) for k in ('k1', 'k2', 'k3', 'dsd')}
 
 
 # --------------------------------------------------------------------------
 # C07: 2-D vs 3-D on a common plane
 # --------------------------------------------------------------------------
 
-def _plane_gen(rng):
-    kind = rng.choice(['k1', 'k2', 'k3'])
+def _plane_gen(rng, kind=None):
+    kind = kind or rng.choice(['k1', 'k2', 'k3'])
     if kind == 'k1':
         p = k1_params(rng, 2)
         pts = [vec(rng, 2, -8, 8) for _ in range(5)]
@@ -467,15 +467,15 @@ def _plane_check(c):
     return None
 
 
-plane = O.make(_plane_gen, _plane_check, 'burn.plane')
+plane = {k: O.make(lambda rng, k=k: _plane_gen(rng, k), _plane_check, 'burn.plane.' + k) for k in ('k1', 'k2', 'k3')}
 
 
 # --------------------------------------------------------------------------
 # C08: change of units
 # --------------------------------------------------------------------------
 
-def _units_gen(rng):
-    kind = rng.choice(['k1', 'k2', 'k3', 'dsd'])
+def _units_gen(rng, kind=None):
+    kind = kind or rng.choice(['k1', 'k2', 'k3', 'dsd'])
     L, T = math.exp(rng.uniform(-6, 6)), math.exp(rng.uniform(-6, 6))
     if kind == 'k1':
         p = k1_params(rng)
@@ -531,7 +531,7 @@ def _units_check(c):
     return None
 
 
-units = O.make(_units_gen, _units_check, 'burn.units')
+units = {k: O.make(lambda rng, k=k: _units_gen(rng, k), _units_check, 'burn.units.' + k) for k in ('k1', 'k2', 'k3', 'dsd')}
 
 
 # --------------------------------------------------------------------------
@@ -586,7 +586,7 @@ _cat(K2, 'Kenamond2', K2_DEF, dict(dets=[10.0, 5.0, -5.0]), 'reject', 'len(dets)
 _cat(K2, 'Kenamond2', K2_DEF, dict(t_d=[2.0, 1.0, 0.0, 1.0]), 'reject', 'len(t_d)=5')
 _cat(K2, 'Kenamond2', K2_DEF, dict(dets=[10.0, 2.0, -5.0, -10.0]), 'reject', 'detonator-in-outer-region')
 _cat(K2, 'Kenamond2', K2_DEF, dict(dets=[10.0, 3.0, -5.0, -10.0]), 'reject', 'detonator-on-interface')
-_cat(K2, 'Kenamond2', K2_DEF, dict(t_d=[2.0, 0.4, 0.0, 1.0, 2.0]), 'reject', 'timing')
+_cat(K2, 'Kenamond2', K2_DEF, dict(t_d=[2.0, -1.0, 0.0, 1.0, 2.0]), 'reject', 'timing')                   # bound = -0.5
 _cat(K2, 'Kenamond2', K2_DEF, dict(t_d=[2.0, -0.5, 0.0, -0.5, 2.0]), 'accept', 'timing-boundary')   # bound = -0.5
 _cat(K3, 'Kenamond3', K3_DEF, dict(x_d=[0.0, 2.0]), 'reject', 'detonator-outside-obstacle')
 _cat(K3, 'Kenamond3', K3_DEF, dict(x_d=[0.0, 3.0]), 'reject', 'detonator-on-obstacle')
@@ -623,11 +623,11 @@ def catalogue_oracle(names, sites=None, exclude=()):
         if r == 'ok':
             # documented as invalid but accepted: what does a call return?
             g = e['params'].get('geometry', 2)
+            pts = [[3.0] + [0.0] * (g - 1), [4.0] + [0.0] * (g - 1)] if g in (2, 3) else [[3.0, 0.0]]
             try:
-                pts = [[3.0] + [0.0] * (g - 1), [4.0] + [0.0] * (g - 1)] if g in (2, 3) else [[3.0, 0.0]]
-                t = bt(e['cls'], e['params'], pts)
-            except Exception:
-                t = None
+                t = O.fields(e['cls'], e['params'], pts, 0.0)['burntime']
+            except Exception as ex:
+                t = 'raises %s: %s' % (type(ex).__name__, ex)
             return fail(site, outcome='accepted', expected='ValueError', params=e['params'], burntime=t)
         if r != 'ValueError':
             return fail(site + ':wrong-exception', outcome=r, expected='ValueError', params=e['params'])
@@ -644,8 +644,8 @@ finding_dsd = catalogue_oracle(['CylindricalExpansion'], sites=('r1-alpha1', 'r2
 finding_k2 = catalogue_oracle(['Kenamond2'], sites=('D1=D2',))
 
 
-def _finite_gen(rng):
-    kind = rng.choice(['k1', 'k2', 'k3', 'dsd'])
+def _finite_gen(rng, kind=None):
+    kind = kind or rng.choice(['k1', 'k2', 'k3', 'dsd'])
     if kind == 'k1':
         p = k1_params(rng)
         pts = [vec(rng, p['geometry'], -50, 50) for _ in range(6)] + [list(p['x_d'])]
@@ -686,7 +686,7 @@ def _finite_check(c):
     return None
 
 
-finite = O.make(_finite_gen, _finite_check, 'burn.finite')
+finite = {k: O.make(lambda rng, k=k: _finite_gen(rng, k), _finite_check, 'burn.finite.' + k) for k in ('k1', 'k2', 'k3', 'dsd')}
 
 
 # --------------------------------------------------------------------------
